@@ -1,5 +1,100 @@
 import JF.Driver.Core
+import JF.Model.MPMediator
 namespace JF.Driver
-/-- component `mp` (stub until its model is written) -/
-def mpComp : Comp := Comp.pure fun _ => "unimplemented"
+open JF JF.MP
+
+/-- component `mp`: one session replays one run of the multi-process mediator through the protocol model
+`JF.MP.leg`, leg by leg.
+
+requests                                       replies
+`init <cores> <n> <a_0> … <a_{n-1}>`            `ok`        (`a_h` = 1 iff `send_out_state` of handler `h` takes arguments)
+`leg c <created…> w <wait…> w <wait…> x <chosen> t <trashed…>`
+    `ok tag=<t> tagok=<0|1> path=<p> left=<k> pre=<l> disc=<l> st=<d…> stored=<l> seen=<d…|d…> pushed=<l>
+        end=<d…> proto=<abc> legit=<0|1> inv=<0|1> quiet=<0|1> inflight=<k>`
+    | `err:<outcome>`   (state unchanged)
+`d` = stage digit 0 idle, 1 event_time_started, 2 suspended, 3 out_state_started; `<l>` = comma separated handlers
+or `-`. `st`/`stored` = stages and `_out_states` keys at commit time (before the trash loop), `end` = stages after
+the trash loop, `seen` = stages of the returned pipes at each `wait`; `tagok` = the committed out-state carries the
+tag of the last start of the chosen handler; `proto` = activator protocol observed (created handlers not running
+and distinct / chosen handler running / chosen handler trashed); `legit` = every `wait` result met the contract;
+`inv` = boundary invariant holds after the leg; `quiet` = every worker blocked with an empty pipe after the leg;
+`inflight` = handlers left in out_state_started after the leg. -/
+structure MPSt where
+  cfg : Cfg := ⟨2, fun _ => false⟩
+  nh : Nat := 0
+  st : Array HS := #[]
+  running : Array Bool := #[]
+  last : Array Nat := #[]
+  leg : Nat := 0
+
+private def stageDigit : Stage → String
+  | .idle => "0" | .timeStarted => "1" | .suspended => "2" | .outStarted => "3"
+
+private def showErr : Err → String
+  | .notReady => "notReady" | .alreadyFinished => "alreadyFinished" | .keyError => "keyError"
+  | .assertIdle => "assertIdle" | .workerContinueInIdle => "workerContinueInIdle" | .recvBlocks => "recvBlocks"
+  | .misread => "misread" | .deadlock => "deadlock" | .starved => "starved" | .adversary => "adversary"
+
+private def showPath : Path → String
+  | .startedNow => "startedNow" | .inFlight => "inFlight" | .stored => "stored" | .none => "none"
+
+private def showL (l : List Nat) : String := if l.isEmpty then "-" else ",".intercalate (l.map toString)
+
+private def digits (n : Nat) (s : St) : String := String.join ((List.range n).map fun h => stageDigit (s h).stage)
+
+/-- split `c … w … w … x … t …` into (created, waits, chosen, trash) -/
+private def parseLeg (a : List String) : List Nat × List (List Nat) × Nat × List Nat :=
+  let rec go (a : List String) (sec : Char) (cr : List Nat) (ws : List (List Nat)) (x : Nat) (tr : List Nat) :
+      List Nat × List (List Nat) × Nat × List Nat :=
+    match a with
+    | [] => (cr.reverse, (ws.map List.reverse).reverse, x, tr.reverse)
+    | "c" :: r => go r 'c' cr ws x tr
+    | "w" :: r => go r 'w' cr ([] :: ws) x tr
+    | "x" :: r => go r 'x' cr ws x tr
+    | "t" :: r => go r 't' cr ws x tr
+    | tok :: r =>
+      let v := nat! tok
+      match sec with
+      | 'c' => go r sec (v :: cr) ws x tr
+      | 'w' => match ws with
+               | w :: ws' => go r sec cr ((v :: w) :: ws') x tr
+               | [] => go r sec cr [[v]] x tr
+      | 'x' => go r sec cr ws v tr
+      | _ => go r sec cr ws x (v :: tr)
+  go a 'c' [] [] 0 []
+
+def mpComp : Comp := ⟨MPSt, {}, fun s a =>
+  match a with
+  | "init" :: cores :: n :: flags =>
+      let arr := (flags.map fun f => f == "1").toArray
+      let nh := nat! n
+      ({ cfg := ⟨nat! cores, fun h => arr.getD h false⟩, nh := nh, st := Array.replicate nh {},
+         running := Array.replicate nh false, last := Array.replicate nh 0, leg := 0 }, "ok")
+  | "leg" :: rest =>
+      let (cr, ws, x, tr) := parseLeg rest
+      let st0 : St := fun h => s.st.getD h {}
+      let run0 := fun h => s.running.getD h false
+      let pA := decide cr.Nodup && cr.all fun h => !run0 h
+      let pB := run0 x || cr.contains x
+      let pC := tr.contains x
+      let lg := legLegit s.cfg s.leg st0 cr ws
+      match MP.leg s.cfg s.leg st0 cr ws x tr with
+      | .error e => (s, "err:" ++ showErr e)
+      | .ok o =>
+        let last' := fun h => if cr.contains h then s.leg else s.last.getD h 0
+        let run' := fun h => (run0 h || cr.contains h) && !tr.contains h
+        let hs := List.range s.nh
+        let inv := hs.all fun h => (o.st h).boundary (run' h)
+        let quiet := hs.all fun h => (o.st h).quiescent
+        let infl := (hs.filter fun h => (o.st h).stage == .outStarted).length
+        let stored := hs.filter fun h => (o.atCommit h).stored.isSome
+        let seen := "|".intercalate (o.loop.seen.reverse.map fun w => String.join (w.map stageDigit))
+        let r := s!"ok tag={o.tag} tagok={b01 (o.tag == last' x)} path={showPath o.path} left={o.waitsLeft} " ++
+          s!"pre={showL o.loop.pre} disc={showL (o.discarded.filter (· != x))} st={digits s.nh o.atCommit} " ++
+          s!"stored={showL stored} seen={if seen.isEmpty then "-" else seen} pushed={showL (o.loop.pushed.map (·.1))} " ++
+          s!"end={digits s.nh o.st} proto={b01 pA}{b01 pB}{b01 pC} legit={b01 lg} inv={b01 inv} " ++
+          s!"quiet={b01 quiet} inflight={infl}"
+        ({ s with st := (hs.map o.st).toArray, running := (hs.map run').toArray, last := (hs.map last').toArray,
+                  leg := s.leg + 1 }, r)
+  | _ => (s, "bad-op")⟩
 end JF.Driver
